@@ -243,7 +243,27 @@ def split_traces(tfs, sc, tag):
 
 
 def validate(tfs, sc):
-    return vlib.validate_traces(tfs, sc, module="TraceTimerHeap.tla", cfg="TraceTimerHeap.cfg", timeout=1500)
+    """TLC trace validation, one JVM per file, in parallel; acceptance = every line consumed
+    (distinct states = lines + 1).  Same contract as vlib.validate_traces, but every run gets
+    its own metadir (vlib.tlc numbers them with a counter that concurrent threads can read
+    twice)."""
+    def one(tf):
+        nlines = sum(1 for _ in open(tf))
+        if nlines == 0:
+            return [], 0
+        r = vlib.tlc("TraceTimerHeap.tla", "TraceTimerHeap.cfg", _Sub(sc), workers=1, env={"TRACE": tf},
+                     timeout=1500, xmx="3g")
+        if r["distinct"] != nlines + 1 or r["violated"]:
+            raise vlib.MachineryError("trace %s not fully consumed: %d lines, %d states, violated=%s\n%s" %
+                                      (tf, nlines, r["distinct"], r["violated"], r["out"][-3000:]))
+        vs = []
+        for s in vlib.printed(r["out"], "VERDICT"):
+            v = json.loads(s)
+            v["file"] = tf
+            vs.append(v)
+        return vs, nlines
+    res = vlib.parallel(one, tfs)
+    return [v for vs, _n in res for v in vs], sum(n for _vs, n in res)
 
 
 def group(scripts, per):
@@ -296,7 +316,9 @@ def run_heap(tier, seed, scratch, rep, mc=True):
         idx = {sid_of(s): s for s in lock}
         idx.update({sid_of(s): s for s, _ in mon})
         # lock-step traces: a few scripts per JVM; monitor traces: one big history or several small per JVM
-        lgroups = group(lock, 2 if tier == "quick" else 4)
+        per = 2 if tier == "quick" else 4      # one id range per file (TraceTimerHeap!MaxId)
+        lgroups = group([s for s in lock if sid_of(s)[0] == "L"], per) + \
+            group([s for s in lock if sid_of(s)[0] == "S"], per)
         big = [[s] for s, sz in mon if sz > 16384]
         small = group([s for s, sz in mon if sz <= 16384], 4)
         ltf = run_harness(exe, lgroups, scratch, "lock")
@@ -350,7 +372,7 @@ def run_heap(tier, seed, scratch, rep, mc=True):
             vlib.log("DRIFT property=C05 timer store: the code no longer follows spec/IvTimerHeap.tla "
                      "(script %s, trace line %d); the structure itself is in order" % (d["script"], d["line"]))
         vac = [r for r in RULES if seen[r] == 0]
-        if vac:
+        if vac and not rep.viol:        # (executions that end in a violation may exercise little)
             raise vlib.MachineryError("C05 heap: vacuous run, rules never exercised: %s" % vac)
         if lock_ops == 0 and not bad:
             raise vlib.MachineryError("C05 heap: no operation was lock-stepped")
